@@ -172,6 +172,22 @@ func runC15AbsJoin(c *Ctx) {
 					fromCwd = true
 				}
 			}
+			// ... or is a parameter that every caller fills from a `cwd` field
+			if prm, ok := elems[0].(*ssa.Parameter); ok && !fromCwd {
+				idx := paramIndexOf(fn, prm)
+				callers := p.callersOf(fn)
+				all := idx >= 0 && len(callers) > 0
+				for _, e := range callers {
+					if e.Site == nil || e.Site.Common().IsInvoke() || idx >= len(e.Site.Common().Args) {
+						all = false
+						continue
+					}
+					if f, _ := fieldLoad(e.Site.Common().Args[idx]); !strings.HasSuffix(f, ".cwd") {
+						all = false
+					}
+				}
+				fromCwd = all
+			}
 			if !fromCwd {
 				return
 			}
